@@ -1,6 +1,8 @@
 import RallyModel.Exec
 import RallyProofs.Exec
 import RallyProofs.ExecDbl
+import RallyModel.Worker
+import RallyProofs.Worker
 /-!
 # C05 — iterations, time periods, warm-up, progress and pacing follow the task spec
 
@@ -813,5 +815,93 @@ example : matchThroughput ['1', '0', ' ', 'd', 'o', 'c', 's', '/', 's'] = some (
 example : matchThroughput ['.', '5', '\t', 'M', 'B', '/', 's', 'e', 'c'] = some (1 / 2, ['M', 'B', '/', 's']) := by decide +kernel
 example : matchThroughput ['1', '.', ' ', 'o', 'p', 's', '/', 's'] = none := by decide +kernel
 example : matchThroughput ['5', ' ', ' ', 'o', 'p', 's', '/', 's'] = none := by decide +kernel
+
+/-! ## round 6: the runner's own report paces the schedule; the clients of one worker do not share a schedule -/
+
+/-- **response_weight_reaches_schedule.**  What `execute_single` hands to `ScheduleHandle.after_request` (and puts
+    into the sample) is the weight and unit the runner itself reported (`Worker.reported`, read from the answer
+    alone) — also when the answer says `success: False`; only a request that raised (nothing reported) counts 0. -/
+theorem response_weight_reaches_schedule (abort : Bool) (o : Outcome) (ops : Nat) (unit : Str) (m : Meta)
+    (h : executeSingle abort o = .ret ops unit m) :
+    (∀ w u, Worker.reported o = some (w, u) → ops = w ∧ unit = u) ∧ (Worker.reported o = none → ops = 0) :=
+  Worker.reported_ret h
+
+example : executeSingle false (.dict (some 1000) (some ['d', 'o', 'c', 's']) (some false) none none) =
+    .ret 1000 ['d', 'o', 'c', 's'] ⟨false, none, none, none⟩ := rfl
+example : Worker.reported (.dict (some 1000) (some ['d', 'o', 'c', 's']) (some false) none none) =
+    some (1000, ['d', 'o', 'c', 's']) := rfl
+
+/-- **deterministic_spacing_reported.**  The spacing clause with the expectation taken from the plan, not from what
+    the executor stored: if the runner's answer to request `a` reports weight `w > 0` in the target's unit — whatever
+    it says about success — the client's next request is scheduled exactly `w · C / T` after it. -/
+theorem deterministic_spacing_reported (R : Run) (tp : Throughput)
+    (htp : targetThroughput R.c.r R.tt R.ti = .ok (some tp))
+    (hdet : R.t.sched = none ∨ R.t.sched = some detName) :
+    Adj (fun a b => ∀ q w u, R.reqs[a.idx]? = some q → Worker.reported q.out = some (w, u) → 0 < w →
+      u ++ ['/', 's'] = tp.unit →
+      b.tup.sched = a.tup.sched + (w : Rat) * (R.c.clients : Rat) / tp.value) R.f.out.recs := by
+  have h := (deterministic_spacing R tp htp hdet).2
+  obtain ⟨_, sched, _, _, _, _, hout, _⟩ := R.inv
+  refine Worker.Adj.imp_mem ?_ h
+  intro a b ha hab q w u hq hrep hw hu
+  obtain ⟨h1, _, _⟩ := hab
+  rw [hout] at ha
+  obtain ⟨_, q', m, hq', hex⟩ := Worker.go_recs_exec R.c R.reqs (R.st0 sched) a ha
+  have h0 : (R.st0 sched).idx = 0 := rfl
+  rw [h0, Nat.sub_zero, hq] at hq'
+  injection hq' with hq'
+  subst hq'
+  obtain ⟨hops, hunit⟩ := (Worker.reported_ret hex).1 w u hrep
+  have h2 := h1 (by rw [hops]; exact hw) (by rw [hunit]; exact hu)
+  rw [hops] at h2
+  exact h2
+
+/-- a polling request that answers "not yet" (`success: False`, weight 1) three times, then succeeds: 4 ops/s over 2 clients -/
+def notYetReq : Req := { okReq (1 / 4) with out := .dict (some 1) none (some false) none none }
+def demoNotYet : Run :=
+  Run.ofInputs demoCfg (fun _ => rfl) demoTask (.int 4) .none 0 2 true 100
+    [notYetReq, notYetReq, notYetReq, okReq (1 / 4), okReq (1 / 4)] (by decide +kernel)
+example : demoNotYet.f.out.recs.map (fun r => (r.tup.sched, r.sample.success)) =
+    [(0, false), (1 / 2, false), (1, false), (3 / 2, true)] := by decide +kernel
+example : targetThroughput demoNotYet.c.r demoNotYet.tt demoNotYet.ti = .ok (some ⟨4, opsPerS⟩) := by decide +kernel
+
+/-- **worker_runs_each_client_on_its_own_schedule.**  `AsyncIoAdapter.run` for the clients a worker simulates: the
+    result for the client at position `i` is the run of the schedule and executor built from ITS allocation and ITS
+    partition of the parameter source — whatever clients come before and after it; one result per client. -/
+theorem worker_runs_each_client_on_its_own_schedule (cap : Nat) (pre post : List Worker.ClientSpec) (s : Worker.ClientSpec) :
+    (Worker.adapterRun cap (pre ++ s :: post))[pre.length]? = some (s.c.client, s.run cap) ∧
+    (Worker.adapterRun cap (pre ++ s :: post)).length = pre.length + 1 + post.length := by
+  simp [Worker.adapterRun, Worker.awaitables_eq_map]
+  omega
+
+/-- **worker_iteration_count.**  Every iteration-based client of a worker — however many other clients the worker
+    simulates in the same step — executes at most `warmup-iterations + iterations` requests, exactly that many when its
+    loop control ends the run, the k-th one flagged warm-up iff `k < warmup-iterations` with progress `(k+1)/total`. -/
+theorem worker_iteration_count (cap : Nat) (cs : List Worker.ClientSpec) (s : Worker.ClientSpec) (hs : s ∈ cs)
+    (hr : ∀ x, s.c.r x = x) (n : Nat) (hw : s.t.warmupT = none) (hp : s.t.period = none)
+    (hi : s.t.iters = some n) (hn : n ≠ 0) :
+    (s.c.client, s.run cap) ∈ Worker.adapterRun cap cs ∧
+    ∀ f, s.run cap = .ok f →
+      f.out.recs.length ≤ s.t.warmupIt.getD 0 + n ∧
+      (f.out.stop = .loopDone → f.out.recs.length = s.t.warmupIt.getD 0 + n) ∧
+      (∀ rec ∈ f.out.recs, rec.sample.warmup = decide (rec.idx < s.t.warmupIt.getD 0) ∧
+        rec.tup.pc = some (((rec.idx + 1 : Nat) : Rat) / ((s.t.warmupIt.getD 0 + n : Nat) : Rat))) := by
+  constructor
+  · rw [Worker.adapterRun, Worker.awaitables_eq_map]
+    exact List.mem_map.mpr ⟨s, hs, rfl⟩
+  · intro f hf
+    let R : Run := { c := s.c, t := s.t, tt := s.tt, ti := s.ti, gidx := s.gidx, total := s.total,
+                     srcInfinite := s.srcInfinite, cap := cap, reqs := s.reqs, f := f, exact := hr, ok := hf }
+    obtain ⟨h1, h2, _, _, h5⟩ := iteration_count R n hw hp hi hn
+    exact ⟨h1, fun hstop => (h2 hstop).1, fun rec hrec => (h5 rec hrec).2⟩
+
+/-- two clients of the same task on one worker, the second with a failing first request -/
+def demoSpecA : Worker.ClientSpec := ⟨demoIter.c, demoIter.t, demoIter.tt, demoIter.ti, 0, 2, true, demoIter.reqs⟩
+def demoSpecB : Worker.ClientSpec :=
+  ⟨{ demoNotYet.c with client := 8 }, demoNotYet.t, demoNotYet.tt, demoNotYet.ti, 1, 2, true, demoNotYet.reqs⟩
+example : (Worker.adapterRun 100 [demoSpecA, demoSpecB]).map
+    (fun p => (p.1, match p.2 with | .ok f => f.out.recs.length | .error _ => 0)) = [(7, 4), (8, 4)] := by decide +kernel
+example : demoSpecA ∈ [demoSpecA, demoSpecB] ∧ demoSpecA.t.iters = some 3 ∧ demoSpecA.t.warmupT = none := by
+  refine ⟨by simp, rfl, rfl⟩
 
 end C05
